@@ -409,6 +409,36 @@ def asyncio_current_task(I, args, kwargs):
     return t
 
 
+_UNWRAPPED = z3.Function("inspect_unwrap", Z.Val, Z.Val)
+
+
+def inspect_unwrap(I, args, kwargs):
+    """inspect.unwrap(f) (assumed): f itself when it has no `__wrapped__`, else the end of its `__wrapped__` chain - ANOTHER object,
+    a function of f; only for objects whose attributes are open (an arbitrary Python object)"""
+    ctx = I.ctx
+    f = ctx.from_val(args[0]) if isinstance(args[0], SV) else args[0]
+    if kwargs or len(args) != 1 or not (isinstance(f, SV) and getattr(ctx.resolve_ty(f.ty), "open_attrs", False)):
+        raise Unsupported("inspect.unwrap of %r" % (f,))
+    ctx.ghost["nondet"] = True
+    if ctx.choose(2, "has(__wrapped__)") == 0:
+        return f
+    t = _UNWRAPPED(f.t)
+    ctx.assume(z3.And(Z.is_refv(t), Z.Val.id(t) > 0, Z.Val.id(t) < ctx.alloc0, t != f.t))
+    ctx.assume_class(t, f.ty)
+    return SV(t, f.ty)
+
+
+def os_path_splitext(I, args, kwargs):
+    """os.path.splitext(p) (assumed): (root, ext) with root + ext == p; ext is empty or starts with '.'"""
+    ctx = I.ctx
+    pth = Z.Val.s(ctx.to_val(args[0]).t)
+    root, ext = fresh("root", z3.StringSort()), fresh("ext", z3.StringSort())
+    dot, slash = z3.StringVal("."), z3.StringVal("/")
+    # (that ext holds no further '.' and no '/' is true as well, but not needed by any clause and costly for the string solvers)
+    ctx.assume(z3.And(pth == z3.Concat(root, ext), z3.Or(z3.Length(ext) == 0, z3.PrefixOf(dot, ext))))
+    return VTuple([SV(Z.mk_str(root), TStr()), SV(Z.mk_str(ext), TStr())])
+
+
 def itertools_chain(I, args, kwargs):
     """itertools.chain over iterables of known length: their elements one after the other, as a one-shot iterator"""
     out = []
@@ -430,5 +460,5 @@ def install(E):
                         "threading.Thread": threading_thread, "asyncio.run_coroutine_threadsafe": run_coroutine_threadsafe, "trio.from_thread.run": trio_from_thread_run,
                         "asyncio.current_task": asyncio_current_task, "trio.sleep": trio_sleep, "str.__mod__": str_mod, "logging.getLogger": get_logger,
                         "threading.Semaphore": threading_semaphore, "threading.BoundedSemaphore": threading_semaphore, "threading.RLock": threading_semaphore,
-                        "math.isclose": math_isclose, "itertools.chain": itertools_chain,
+                        "math.isclose": math_isclose, "itertools.chain": itertools_chain, "inspect.unwrap": inspect_unwrap, "os.path.splitext": os_path_splitext,
                         "asyncio.run": asyncio_run, "asyncio.shield": asyncio_shield, "asyncio.gather": asyncio_gather})
